@@ -2,5 +2,6 @@ SPECIFICATION Spec
 CONSTANTS
   Addr = {"a1", "a2", "a3", "a4"}
   Node = {"n1", "n2"}
+  Procs = {1}
 INVARIANTS TypeOK Partition
 CHECK_DEADLOCK FALSE
